@@ -1629,6 +1629,10 @@ static void assign_lvar_offsets(Obj *prog) {
       top += var->ty->size;
     }
 
+    fn->named_gp = gp;
+    fn->named_fp = fp;
+    fn->named_stack_top = align_to(top, 8);
+
     // Assign offsets to pass-by-register parameters and local variables.
     for (Obj *var = fn->locals; var; var = var->next) {
       if (var->offset)
@@ -1777,21 +1781,18 @@ static void emit_text(Obj *prog) {
 
     // Save arg registers if function is variadic
     if (fn->va_area) {
-      int gp = 0, fp = 0;
-      for (Obj *var = fn->params; var; var = var->next) {
-        if (is_flonum(var->ty))
-          fp++;
-        else
-          gp++;
-      }
-
+      // The unnamed arguments follow the registers and the stack bytes
+      // that the named parameters occupy: a struct may take two
+      // registers of either kind, a long double or a large struct
+      // and whatever found no free register are on the stack.
+      int gp = fn->named_gp, fp = fn->named_fp;
       int off = fn->va_area->offset;
 
       // va_elem
       println("  movl $%d, %d(%%rbp)", gp * 8, off);          // gp_offset
       println("  movl $%d, %d(%%rbp)", fp * 16 + 48, off + 4); // fp_offset
       println("  movq %%rbp, %d(%%rbp)", off + 8);            // overflow_arg_area
-      println("  addq $16, %d(%%rbp)", off + 8);
+      println("  addq $%d, %d(%%rbp)", fn->named_stack_top, off + 8);
       println("  movq %%rbp, %d(%%rbp)", off + 16);           // reg_save_area
       println("  addq $%d, %d(%%rbp)", off + 24, off + 16);
 
